@@ -13,20 +13,24 @@
 (* Values are symbolic: opacities are exponents e (alpha = 2^-e, -1 = 0),   *)
 (* transforms are lists of ops with integer arguments, paints are names.    *)
 (***************************************************************************)
-EXTENDS TLC, Naturals, Integers, Sequences, FiniteSets, Json
+EXTENDS TLC, Naturals, Integers, Sequences, SequencesExt, FiniteSets, Json
 
 CONSTANTS Focus,      \* "struct" | "paint" | "clip" | "stroke" | "grad" | "mixed"
           MaxNodes,   \* number of nodes after which the document is closed
           MaxDepth
 
-VARIABLES nodes, open, done
+VARIABLES nodes, open, done, rnd
 
-vars == <<nodes, open, done>>
+vars == <<nodes, open, done, rnd>>
 
-Pick(S) == RandomElement(S)
-Maybe(p100) == RandomElement(1..100) <= p100
+(* All random choices of one step are functions of the state variable rnd (re-drawn by    *)
+(* every step), so that a step is a deterministic function of the state: guards, ENABLED *)
+(* and repeated references to a LET definition all see the same choices.                 *)
+H(i) == (((rnd % 65521) * ((2 * i) + 1)) + ((rnd \div 65521) * 7919) + (i * 104729)) % 65521
+PickN(i, S) == LET q == SetToSeq(S) IN q[1 + (H(i) % Len(q))]
+MaybeN(i, p100) == (H(i) % 100) < p100
 
-Containers == {"g", "defs", "clipPath", "svg", "symbol"}
+Containers == {"g", "defs", "clipPath", "svg", "symbol", "mask", "switch", "a", "filter"}
 
 (* ------------------------------------------------------------------------ *)
 (* catalogues                                                                *)
@@ -58,49 +62,69 @@ TfOps == { <<"translate",3,1>>, <<"translate",-2,2>>, <<"translate",0,4>>,
            <<"skewX",45>>, <<"skewY",45>>,
            <<"matrix",0,1,1,0,0,0>>, <<"matrix",1,0,0,-1,0,16>>, <<"matrix",1,1,-1,1,8,0>> }
 
-TfList(n_) == IF Maybe(55) THEN <<>>
-          ELSE IF Maybe(60) THEN <<Pick(TfOps)>>
-          ELSE <<Pick(TfOps), Pick(TfOps)>>
+TfList(n_) == IF MaybeN(101, 55) THEN <<>>
+          ELSE IF MaybeN(102, 60) THEN <<PickN(103, TfOps)>>
+          ELSE <<PickN(104, TfOps), PickN(105, TfOps)>>
 
 (* ------------------------------------------------------------------------ *)
 (* attribute sets                                                            *)
-Opt(name, S, p) == IF Maybe(p) THEN << <<name, Pick(S), IF Maybe(30) THEN 1 ELSE 0>> >> ELSE <<>>
+Opt(i, name, S, p) == IF MaybeN(3 * i, p) THEN << <<name, PickN(3 * i + 1, S), IF MaybeN(3 * i + 2, 30) THEN 1 ELSE 0>> >> ELSE <<>>
 
 PaintAttrs(n_) ==
-     Opt("fill", Colors \cup {"none", "black"}, IF Focus \in {"paint", "mixed"} THEN 60 ELSE 45)
-  \o Opt("fill-opacity", {0, 1, 2, -1}, IF Focus = "paint" THEN 35 ELSE 8)
-  \o Opt("opacity", {0, 1, 2, 1, 2, -1}, IF Focus = "paint" THEN 45 ELSE 8)
-  \o Opt("fill-rule", {"nonzero", "evenodd"}, 25)
-  \o Opt("display", {"none", "inline"}, IF Focus = "paint" THEN 10 ELSE 4)
+     Opt(107, "fill", Colors \cup {"none", "black"}, IF Focus \in {"paint", "mixed"} THEN 60 ELSE 45)
+  \o Opt(108, "fill-opacity", {0, 1, 2, -1}, IF Focus = "paint" THEN 35 ELSE 8)
+  \o Opt(109, "opacity", IF Focus \in {"paint", "mixed"} /\ MaybeN(109 + 900, 12) THEN {-2, -3, -4} ELSE {0, 1, 2, 1, 2, -1}, IF Focus = "paint" THEN 45 ELSE 12)
+  \o Opt(110, "fill-rule", {"nonzero", "evenodd"}, 25)
+  \o Opt(111, "display", {"none", "inline"}, IF Focus = "paint" THEN 10 ELSE 4)
+
+StrokeAttrs(n_) ==
+  IF Focus \notin {"stroke", "mixed", "grad"} \/ ~MaybeN(112, IF Focus = "stroke" THEN 85 ELSE 25) THEN <<>>
+  ELSE Opt(113, "stroke", Colors, 90)
+    \o Opt(114, "stroke-width", {1, 2, 2, 4}, 75)
+    \o Opt(115, "stroke-linecap", {"butt", "round", "square"}, 45)
+    \o Opt(116, "stroke-linejoin", {"miter", "round", "bevel"}, 45)
+    \o Opt(117, "stroke-miterlimit", {1, 4, 10}, 20)
+    \o Opt(118, "stroke-dasharray", { <<2>>, <<2, 1>>, <<3, 1, 1>>, <<1, 1, 2, 2>>, <<>> }, 30)
+    \o Opt(119, "stroke-dashoffset", {0, 1, -1, 5}, 20)
+    \o Opt(120, "stroke-opacity", {0, 1, 2, -1}, 20)
 
 (* the same property may be given twice: as attribute AND in style (style wins) *)
-Conflict(at) == IF Focus = "paint" /\ Maybe(15)
-                THEN at \o << <<"fill", Pick(Colors), 1>> >> ELSE at
+Conflict(at) == IF Focus = "paint" /\ MaybeN(121, 15)
+                THEN at \o << <<"fill", PickN(122, Colors), 1>> >> ELSE at
 
-TfAttr(n_) == LET t == TfList(n_) IN IF t = <<>> \/ (Focus = "paint" /\ Maybe(60)) THEN <<>>
+TfAttr(n_) == LET t == TfList(n_) IN IF t = <<>> \/ (Focus = "paint" /\ MaybeN(123, 60)) THEN <<>>
                              ELSE << <<"transform", t, 0>> >>
 
 Ids(tags) == {nodes[i].id : i \in {j \in 1..Len(nodes) : nodes[j].tag \in tags /\ nodes[j].id # ""}}
 OpenIds == {nodes[open[i]].id : i \in 1..Len(open)}
 
 ClipAttr == LET cs == Ids({"clipPath"}) \ OpenIds
-            IN IF Focus \in {"clip", "mixed"} /\ cs # {} /\ Maybe(IF Focus = "clip" THEN 60 ELSE 20)
-               THEN << <<"clip-path", Pick(cs), 0>> >> ELSE <<>>
+            IN IF Focus \in {"clip", "mixed"} /\ cs # {} /\ MaybeN(124, IF Focus = "clip" THEN 60 ELSE 20)
+               THEN << <<"clip-path", PickN(125, cs), 0>> >> ELSE <<>>
 
 InClip == \E i \in 1..Len(open) : nodes[open[i]].tag = "clipPath"
 InDefs == \E i \in 1..Len(open) : nodes[open[i]].tag \in {"defs", "symbol"}
 
+GradIds == Ids({"linearGradient", "radialGradient"})
+GradFill(at) == IF Focus \in {"grad", "mixed"} /\ GradIds # {} /\ MaybeN(126, IF Focus = "grad" THEN 80 ELSE 30)
+                THEN SelectSeq(at, LAMBDA t : t[1] # "fill") \o << <<"fill", "url(#" \o PickN(127, GradIds) \o ")", 0>> >>
+                ELSE at
+
 ShapeAttrs == IF InClip
-              THEN Opt("clip-rule", {"nonzero", "evenodd"}, 40) \o TfAttr(Len(nodes))
-              ELSE Conflict(PaintAttrs(Len(nodes))) \o TfAttr(Len(nodes)) \o ClipAttr
+              THEN Opt(128, "clip-rule", {"nonzero", "evenodd"}, 40) \o TfAttr(Len(nodes))
+              ELSE GradFill(Conflict(PaintAttrs(Len(nodes)))) \o StrokeAttrs(Len(nodes))
+                   \o TfAttr(Len(nodes)) \o ClipAttr
 
-NewId == "n" \o ToString(Len(nodes) + 1)
+(* most ids are fresh; some imitate the names picosvg generates for cloned gradients *)
+NewId == LET gs == {nodes[i].id : i \in {j \in 1..Len(nodes) : nodes[j].tag \in {"linearGradient", "radialGradient"}}}
+             cand == {g \o sfx : g \in gs, sfx \in {"_0", "_1", "_2"}} \ {nodes[i].id : i \in 1..Len(nodes)}
+         IN IF cand # {} /\ MaybeN(77, 25) THEN PickN(78, cand) ELSE "n" \o ToString(Len(nodes) + 1)
 
-Geom(tag) == CASE tag = "rect" -> Pick(RectCat)
-               [] tag = "circle" -> Pick(CircleCat)
-               [] tag = "ellipse" -> Pick(EllipseCat)
-               [] tag \in {"polygon", "polyline"} -> Pick(PolyCat)
-               [] tag = "path" -> Pick(PathCat)
+Geom(tag) == CASE tag = "rect" -> PickN(129, RectCat)
+               [] tag = "circle" -> PickN(130, CircleCat)
+               [] tag = "ellipse" -> PickN(131, EllipseCat)
+               [] tag \in {"polygon", "polyline"} -> PickN(132, PolyCat)
+               [] tag = "path" -> PickN(133, PathCat)
                [] tag = "line" -> <<1, 2, 12, 9>>
                [] OTHER -> <<>>
 
@@ -113,13 +137,14 @@ Push(node) == /\ nodes' = Append(nodes, node)
 
 AddShape ==
   /\ \E tag \in ShapeTags :
-       Push([d |-> Depth, tag |-> tag, id |-> IF Maybe(35) THEN NewId ELSE "",
+       Push([d |-> Depth, tag |-> tag, id |-> IF MaybeN(134, 35) THEN NewId ELSE "",
              at |-> ShapeAttrs, g |-> Geom(tag), ref |-> ""])
 
 AddGroup ==
   /\ Depth < MaxDepth /\ ~InClip
-  /\ Push([d |-> Depth, tag |-> "g", id |-> IF Maybe(30) THEN NewId ELSE "",
-           at |-> PaintAttrs(Len(nodes)) \o TfAttr(Len(nodes)) \o ClipAttr, g |-> <<>>, ref |-> ""])
+  /\ Push([d |-> Depth, tag |-> "g", id |-> IF MaybeN(135, 30) THEN NewId ELSE "",
+           at |-> PaintAttrs(Len(nodes)) \o StrokeAttrs(Len(nodes)) \o TfAttr(Len(nodes)) \o ClipAttr,
+           g |-> <<>>, ref |-> ""])
 
 AddDefs ==
   /\ Depth < MaxDepth /\ ~InClip /\ ~InDefs
@@ -128,20 +153,19 @@ AddDefs ==
 AddClipPath ==
   /\ Focus \in {"clip", "mixed"} /\ Depth < MaxDepth /\ ~InClip
   /\ LET cs == Ids({"clipPath"}) \ OpenIds
-         cc == IF cs # {} /\ Maybe(25) THEN << <<"clip-path", Pick(cs), 0>> >> ELSE <<>>
+         cc == IF cs # {} /\ MaybeN(136, 25) THEN << <<"clip-path", PickN(137, cs), 0>> >> ELSE <<>>
      IN Push([d |-> Depth, tag |-> "clipPath", id |-> NewId,
-              at |-> cc \o (IF Maybe(25) THEN << <<"transform", <<Pick(TfOps)>>, 0>> >> ELSE <<>>)
-                       \o (IF Maybe(15) THEN << <<"clip-rule", Pick({"nonzero","evenodd"}), 0>> >> ELSE <<>>),
+              at |-> cc \o (IF MaybeN(138, 25) THEN << <<"transform", <<PickN(139, TfOps)>>, 0>> >> ELSE <<>>)
+                       \o (IF MaybeN(140, 15) THEN << <<"clip-rule", PickN(141, {"nonzero","evenodd"}), 0>> >> ELSE <<>>),
               g |-> <<>>, ref |-> ""])
 
 AddUse ==
-  /\ Focus \in {"struct", "paint", "clip", "mixed"}
   /\ LET targets == Ids(ShapeTags \cup {"g", "use"}) \ OpenIds
      IN /\ targets # {}
-        /\ Push([d |-> Depth, tag |-> "use", id |-> IF Maybe(20) THEN NewId ELSE "",
+        /\ Push([d |-> Depth, tag |-> "use", id |-> IF MaybeN(142, 20) THEN NewId ELSE "",
                  at |-> (IF InClip THEN <<>> ELSE PaintAttrs(Len(nodes)) \o ClipAttr) \o TfAttr(Len(nodes)),
-                 g |-> IF Maybe(50) THEN <<0, 0>> ELSE <<Pick({-2, 3, 5}), Pick({0, 1, 4})>>,
-                 ref |-> Pick(targets)])
+                 g |-> IF MaybeN(143, 50) THEN <<0, 0>> ELSE <<PickN(144, {-2, 3, 5}), PickN(145, {0, 1, 4})>>,
+                 ref |-> PickN(146, targets)])
 
 (* nested svg: g == <<x, y, w, h, viewBox (<<>> or 4 ints), preserveAspectRatio, overflow>> *)
 Aligns == {"xMinYMin", "xMidYMin", "xMaxYMin", "xMinYMid", "xMidYMid", "xMaxYMid",
@@ -149,25 +173,66 @@ Aligns == {"xMinYMin", "xMidYMin", "xMaxYMin", "xMinYMid", "xMidYMid", "xMaxYMid
 AddSvg ==
   /\ Focus \in {"struct", "mixed"} /\ Depth < MaxDepth /\ ~InClip /\ ~InDefs
   /\ Cardinality({i \in 1..Len(open) : nodes[open[i]].tag = "svg"}) <= 1
-  /\ LET par == IF Maybe(30) THEN <<>> ELSE IF Maybe(15) THEN <<"none">>
-                ELSE <<Pick(Aligns), Pick({"", "meet", "slice"})>>
-         vb  == IF Maybe(25) THEN <<>> ELSE Pick({ <<0,0,16,16>>, <<0,0,8,16>>, <<2,2,12,6>>, <<0,0,32,32>> })
-         tf  == IF Maybe(30) THEN << <<"transform", <<Pick(TfOps)>>, 0>> >> ELSE <<>>
+  /\ LET par == IF MaybeN(147, 30) THEN <<>> ELSE IF MaybeN(148, 15) THEN <<"none">>
+                ELSE <<PickN(149, Aligns), PickN(150, {"", "meet", "slice"})>>
+         vb  == IF MaybeN(151, 25) THEN <<>> ELSE PickN(152, { <<0,0,16,16>>, <<0,0,8,16>>, <<2,2,12,6>>, <<0,0,32,32>> })
+         tf  == IF MaybeN(153, 30) THEN << <<"transform", <<PickN(154, TfOps)>>, 0>> >> ELSE <<>>
      IN Push([d |-> Depth, tag |-> "svg", id |-> "",
               at |-> tf,
-              g |-> <<Pick({0, 2, 4}), Pick({0, 1, 4}), Pick({8, 12, 16, -1}), Pick({8, 10, 16, -1}), vb, par,
-                      IF tf # <<>> THEN "visible" ELSE Pick({"", "hidden", "visible", "visible"})>>,
+              g |-> <<PickN(155, {0, 2, 4}), PickN(156, {0, 1, 4}), PickN(157, {8, 12, 16, -1}), PickN(158, {8, 10, 16, -1}), vb, par,
+                      IF tf # <<>> THEN "visible" ELSE PickN(159, {"", "hidden", "visible", "visible"})>>,
               ref |-> ""])
+
+(* gradients: coordinates are integers (user units or, for objectBoundingBox, percent strings) *)
+GradUnits(n_) == PickN(160, {"", "userSpaceOnUse", "objectBoundingBox"})
+GradCommon(n_) ==
+     Opt(161, "gradientTransform", { <<PickN(162, TfOps)>>, <<PickN(163, TfOps), PickN(164, TfOps)>> }, 40)
+  \o Opt(165, "spreadMethod", {"pad", "reflect", "repeat"}, 30)
+
+AddGradient ==
+  /\ Focus \in {"grad", "mixed"} /\ ~InClip
+  /\ LET units == GradUnits(Len(nodes))
+         bbox  == units # "userSpaceOnUse"
+         ua    == IF units = "" THEN <<>> ELSE << <<"gradientUnits", units, 0>> >>
+         lin   == MaybeN(166, 55)
+         C(v)  == IF bbox THEN PickN(167, {"0%", "25%", "50%", "100%", "0.5", "1", "0"}) ELSE v
+         coords == IF lin
+                   THEN Opt(168, "x1", {C(2)}, 70) \o Opt(169, "y1", {C(3)}, 60) \o Opt(170, "x2", {C(12)}, 80) \o Opt(171, "y2", {C(9)}, 60)
+                   ELSE Opt(172, "cx", {C(8)}, 75) \o Opt(173, "cy", {C(7)}, 75) \o Opt(174, "r", {C(6)}, 80)
+                        \o Opt(175, "fx", {C(6)}, 25) \o Opt(176, "fy", {C(7)}, 25)
+         coordsA == [k \in 1..Len(coords) |-> <<coords[k][1], coords[k][2], 0>>]
+         href  == IF GradIds # {} /\ MaybeN(177, 30) THEN PickN(178, GradIds) ELSE ""
+     IN Push([d |-> Depth, tag |-> IF lin THEN "linearGradient" ELSE "radialGradient", id |-> NewId,
+              at |-> ua \o coordsA \o [k \in 1..Len(GradCommon(Len(nodes))) |->
+                                          <<GradCommon(Len(nodes))[k][1], GradCommon(Len(nodes))[k][2], 0>>],
+              g |-> IF href # "" /\ MaybeN(179, 50) THEN <<>>
+                    ELSE PickN(180, { << <<0, "red">>, <<100, "blue">> >>,
+                                << <<0, "lime">>, <<50, "red">>, <<100, "blue">> >>,
+                                << <<25, "blue">>, <<75, "lime">> >> }),
+              ref |-> href])
+
+(* content picosvg does not support or ignores *)
+AddOther ==
+  /\ Focus = "mixed" /\ ~InClip
+  /\ \E tag \in {"filter", "mask", "image", "text", "title", "desc", "metadata", "symbol",
+                   "foreign", "style", "switch", "a"} :
+       Push([d |-> Depth, tag |-> tag,
+             id |-> IF tag = "symbol" /\ MaybeN(181, 50) THEN NewId ELSE "",
+             at |-> <<>>, g |-> <<>>, ref |-> ""])
 
 CloseOne == /\ open # <<>>
             /\ nodes[Len(nodes)].tag \notin Containers \/ Len(nodes) > open[Len(open)]
             /\ open' = SubSeq(open, 1, Len(open) - 1)
             /\ UNCHANGED nodes
 
-RootAttrs(n_) == IF Focus \in {"paint", "mixed"} /\ Maybe(30)
-             THEN Opt("fill", Colors \cup {"none"}, 70) \o Opt("fill-rule", {"evenodd"}, 20)
-                  \o Opt("fill-opacity", {1, 2}, 20)
-             ELSE <<>>
+RootAttrs(n_) == IF Focus \in {"paint", "mixed"} /\ MaybeN(401, 30)
+                 THEN Opt(402, "fill", Colors \cup {"none"}, 70) \o Opt(403, "fill-rule", {"evenodd"}, 20)
+                      \o Opt(404, "fill-opacity", {1, 2}, 20)
+                      \o (IF Focus = "mixed" THEN Opt(405, "opacity", {1, 2}, 35) \o Opt(406, "stroke", Colors, 20)
+                                                  \o Opt(407, "stroke-width", {2}, 20)
+                                                  \o Opt(408, "display", {"inline"}, 10)
+                          ELSE <<>>)
+                 ELSE <<>>
 
 (* SVG 1.1 and browsers disagree on whether the x/y of a use shifts its clip-path; *)
 (* keep the environment inside the uncontroversial part: clipped use => x = y = 0   *)
@@ -176,35 +241,46 @@ Settle(nd) == IF nd.tag = "use" /\ HasAttr(nd.at, "clip-path") THEN [nd EXCEPT !
 Doc == [vb |-> <<0, 0, 16, 16>>, root |-> RootAttrs(Len(nodes)),
         nodes |-> [k \in 1..Len(nodes) |-> Settle(nodes[k])]]
 
-Init == nodes = <<>> /\ open = <<>> /\ done = FALSE
+Init == nodes = <<>> /\ open = <<>> /\ done = FALSE /\ rnd \in 0..63
 
 (* weighted choice of the next construction step (percent), per focus *)
 Kind(n_) ==
-  LET r == Pick(1..100)
-      W == CASE Focus = "paint"  -> <<40, 28, 0, 0, 8, 0, 18>>
-             [] Focus = "clip"   -> <<38, 14, 4, 18, 8, 0, 14>>
-             [] Focus = "struct" -> <<40, 16, 5, 0, 12, 9, 14>>
-             [] OTHER            -> <<36, 14, 5, 10, 10, 7, 14>>
-      \* shape, g, defs, clipPath, use, svg, close  (remainder: finish)
-  IN IF r <= W[1] THEN "shape"
-     ELSE IF r <= W[1] + W[2] THEN "g"
-     ELSE IF r <= W[1] + W[2] + W[3] THEN "defs"
-     ELSE IF r <= W[1] + W[2] + W[3] + W[4] THEN "clipPath"
-     ELSE IF r <= W[1] + W[2] + W[3] + W[4] + W[5] THEN "use"
-     ELSE IF r <= W[1] + W[2] + W[3] + W[4] + W[5] + W[6] THEN "svg"
-     ELSE IF r <= W[1] + W[2] + W[3] + W[4] + W[5] + W[6] + W[7] THEN "close"
+  LET r == 1 + (H(186) % 100)
+      \* shape, g, defs, clipPath, use, svg, close, gradient, other  (remainder: finish)
+      W == CASE Focus = "paint"  -> <<40, 28, 0, 0, 8, 0, 18, 0, 0>>
+             [] Focus = "clip"   -> <<38, 14, 4, 18, 8, 0, 14, 0, 0>>
+             [] Focus = "struct" -> <<40, 16, 5, 0, 12, 9, 14, 0, 0>>
+             [] Focus = "stroke" -> <<52, 18, 0, 0, 6, 0, 16, 0, 0>>
+             [] Focus = "grad"   -> <<40, 14, 4, 0, 6, 0, 14, 18, 0>>
+             [] OTHER            -> <<30, 12, 5, 7, 8, 5, 13, 9, 7>>
+      c == [k \in 1..9 |-> IF k = 1 THEN W[1] ELSE 0]
+      S(k) == IF k = 0 THEN 0 ELSE W[1] + (IF k >= 2 THEN W[2] ELSE 0) + (IF k >= 3 THEN W[3] ELSE 0)
+                 + (IF k >= 4 THEN W[4] ELSE 0) + (IF k >= 5 THEN W[5] ELSE 0) + (IF k >= 6 THEN W[6] ELSE 0)
+                 + (IF k >= 7 THEN W[7] ELSE 0) + (IF k >= 8 THEN W[8] ELSE 0) + (IF k >= 9 THEN W[9] ELSE 0)
+  IN IF r <= S(1) THEN "shape"
+     ELSE IF r <= S(2) THEN "g"
+     ELSE IF r <= S(3) THEN "defs"
+     ELSE IF r <= S(4) THEN "clipPath"
+     ELSE IF r <= S(5) THEN "use"
+     ELSE IF r <= S(6) THEN "svg"
+     ELSE IF r <= S(7) THEN "close"
+     ELSE IF r <= S(8) THEN "gradient"
+     ELSE IF r <= S(9) THEN "other"
      ELSE "finish"
 
 CanClose == open # <<>> /\ (nodes[Len(nodes)].tag \notin Containers \/ Len(nodes) > open[Len(open)])
 
 Grow == /\ ~done /\ Len(nodes) < MaxNodes
         /\ UNCHANGED done
+        /\ rnd' = RandomElement(0..999999)
         /\ LET k == Kind(Len(nodes))
            IN IF k = "g" /\ ENABLED AddGroup THEN AddGroup
               ELSE IF k = "defs" /\ ENABLED AddDefs THEN AddDefs
               ELSE IF k = "clipPath" /\ ENABLED AddClipPath THEN AddClipPath
               ELSE IF k = "use" /\ ENABLED AddUse THEN AddUse
               ELSE IF k = "svg" /\ ENABLED AddSvg THEN AddSvg
+              ELSE IF k = "gradient" /\ ENABLED AddGradient THEN AddGradient
+              ELSE IF k = "other" /\ ENABLED AddOther THEN AddOther
               ELSE IF k = "close" /\ CanClose THEN CloseOne
               ELSE IF k = "finish" /\ Len(nodes) >= 2 THEN FALSE
               ELSE AddShape
@@ -214,7 +290,7 @@ Finish == /\ ~done /\ Len(nodes) >= 1
           /\ (Len(nodes) >= MaxNodes \/ ~ENABLED Grow)
           /\ done' = TRUE
           /\ PrintT("CASE " \o ToJson(Doc))
-          /\ UNCHANGED <<nodes, open>>
+          /\ UNCHANGED <<nodes, open, rnd>>
 
 Next == Grow \/ Finish
 Spec == Init /\ [][Next]_vars
